@@ -27,6 +27,8 @@ type ViolationRec struct {
 	Log      []string `json:"log,omitempty"`
 	Crash    string   `json:"crash,omitempty"`
 	Digest   string   `json:"digest,omitempty"`
+	// RacySites: the racy accesses that were scheduling points when Choices were recorded
+	RacySites []string `json:"racy_sites,omitempty"`
 }
 
 // ScenarioResult is what one scenario contributes to the evidence.
@@ -46,6 +48,8 @@ type ScenarioResult struct {
 	Samples     []any            `json:"samples,omitempty"`
 	Violations  []ViolationRec   `json:"violations,omitempty"`
 	WallS       float64          `json:"wall_s"`
+	RacyRounds  int              `json:"racy_rounds,omitempty"`   // searches repeated because new racing accesses were found
+	RacyFound   []string         `json:"racy_found,omitempty"`    // racing accesses found that are not in racy_sites.txt
 	Races       []sched.RaceRec  `json:"races,omitempty"`         // race build only
 	RaceAcc     int64            `json:"race_accesses,omitempty"` // race build only
 }
@@ -87,7 +91,7 @@ func FromStats(prop, name string, bound int, st *sched.Stats) *ScenarioResult {
 		}
 	}
 	for _, v := range st.Violations {
-		rec := ViolationRec{Property: prop, Scenario: name, Clause: v.Clause, Msg: v.Msg, Sig: v.Sig, Choices: v.Choices, Log: v.Log, Digest: v.Digest}
+		rec := ViolationRec{Property: prop, Scenario: name, Clause: v.Clause, Msg: v.Msg, Sig: v.Sig, Choices: v.Choices, Log: v.Log, Digest: v.Digest, RacySites: v.RacySites}
 		if v.Crash != nil {
 			rec.Crash = v.Crash.Value + "\n" + v.Crash.Stack
 		}
@@ -101,6 +105,9 @@ func ExploreScenario(c *Ctx, prop, name string, opt sched.Options, body func(), 
 	t0 := time.Now()
 	if c.Replay != nil {
 		sched.BoundAll, sched.NoEarlyClock, sched.HoldBack, sched.HoldLagNs = opt.BoundAll, opt.NoEarlyClock, opt.HoldBack, opt.HoldLagNs
+		if c.Replay.RacySites != nil {
+			sched.SetRacySites(c.Replay.RacySites)
+		}
 		e := sched.Replay(c.Replay.Choices, opt.MaxSteps, body)
 		outcome, digest, fail := judge(e)
 		for _, l := range e.Log {
@@ -140,6 +147,15 @@ func ExploreScenario(c *Ctx, prop, name string, opt sched.Options, body func(), 
 	st := sched.Explore(opt, body, judge)
 	r := FromStats(prop, name, opt.Bound, st)
 	r.Races, r.RaceAcc = sched.DrainRaces(), sched.RaceAccesses-acc0
+	r.RacyRounds = st.RacyRounds
+	if !sched.RaceBuild {
+		r.Races = nil
+		for _, k := range sched.ActiveRacySites() {
+			if !sched.StaticRacy[k] {
+				r.RacyFound = append(r.RacyFound, k)
+			}
+		}
+	}
 	r.WallS = time.Since(t0).Seconds()
 	return r
 }
